@@ -217,6 +217,32 @@ def gen_program(seed: int) -> Dict[str, Any]:
             if rs.chance(0.3) and k not in ("tjoint", "ljoint"):
                 ops.append({"op": "zone", "target": sn, "name": "shapezone"})
         entities += shape_names
+    # one of the less common entities (elbow, sketch-based shape or stack, shell, connector, wedge, ...), far away from
+    # everything else; every edge family chopped, patches on some sides of some of its operations
+    zr = rs.sub("zoo")
+    if zr.chance(0.12):
+        from . import zoo
+
+        zops, zchops, znames, zsnap, zmeta = zoo.entity_with_chops(zr, 0, mode="complete", offset=[0.0, -60.0, 0.0], sources="all" if dense else "single")
+        # (this check identifies points by their printed 8 decimals: an entity whose own construction leaves coinciding
+        # corners 1e-9 apart - the joints - cannot be judged that way and is left to the propagation checks)
+        if zsnap is not None and zmeta["coincident_spread"] < 1e-11:
+            # (the name s0 is taken by the shapes above; the interpreter binds helper entities as <name>_a / _b / _base)
+            zop = dict(zops[0], name="z0")
+            ops.append(zop)
+            for ch in zchops:
+                ch = dict(ch)
+                ch["target"] = "z0" + ch["target"][2:]
+                ops.append(ch)
+            for (nme_, j_, _, _) in zsnap:
+                tgt = "z0" + nme_[2:]
+                for side in hexref.SIDES:
+                    if zr.chance(0.12):
+                        if j_ is None:
+                            ops.append({"op": "patch", "target": tgt, "side": side, "name": zr.pick(PATCHES)})
+                        else:
+                            ops.append({"op": "sub_patch", "target": tgt, "index": j_, "side": side, "name": zr.pick(PATCHES)})
+            entities += ["z0" + n_[2:] for n_ in znames]
     for lab in sorted(labels_used):
         if rs.chance(0.15):
             # a geometry declared twice: the later declaration is the one that counts
